@@ -125,7 +125,7 @@ package ch
 //@   ensures [internal] err == nil ==> len(list) >= 1 && len(e.Next) == len(list) - 1 [C03] {one-entry-per-nested-cause}
 //@   ensures [internal] err == nil ==> e.Code == list[0].Code [C03] {head-is-the-first-exception}
 //@   ensures [internal] err == nil ==> forall j in 0..len(e.Next) :: e.Next[j].Code == list[1 + j].Code [C03] {causes-in-server-order}
-//@ loop 0 (list)
+//@ loop 0 ()
 //@   modifies all(c.reader)
 //@   invariant len(list) >= 0 && (c.reader.failed ==> old(c.reader.failed))
 //@ loop 1 (rangeindex)
